@@ -120,7 +120,6 @@ Eq0(v, c) ==
 --------------------------------------------------------------------------
 (* Vectors *)
 
-Cells(vec)    == {vec[i] : i \in DOMAIN vec}
 HasBlank(vec) == \E i \in DOMAIN vec : IsBlank(vec[i])
 NonBlank(vec) == {i \in DOMAIN vec : ~IsBlank(vec[i])}
 
@@ -147,12 +146,15 @@ FREE == -1     \* the statement does not constrain the result (any value,
                \* but still no exception)
 SELF == -2     \* the lookup value itself (an error value propagates)
 
-\* lookup values that Excel formulas read as "nothing": 0, "", FALSE.
-\* Whether they find a BLANK cell is not settled by "type-strict"
-\* (DESIGN section 5), so that combination is left free.
+\* A blank cell holds no value: it occupies a position, equals nothing and
+\* is neither below nor above anything (its tag is no value's tag).
+\* The one exception: the lookup values that formulas read as "nothing",
+\* 0, "" and FALSE.  Whether they find a BLANK cell is not settled by
+\* "type-strict" (DESIGN section 5), so that combination is left free.
 Neutral(v) == v \in {Num(0), Txt(<<>>), Bool(0)}
 
-\* MatchRel: the relation, given whether vec counts as sorted for type t
+\* MatchRel: the relation, given whether vec counts as sorted for type t.
+\* An error lookup value propagates; errors and blanks in vec never match.
 MatchRel(v, vec, t, sorted) ==
   IF IsErr(v) THEN {SELF}
   ELSE IF IsBlank(v) THEN {FREE}                \* a blank lookup value
@@ -191,8 +193,10 @@ Lo(vec) == IF NonBlank(vec) = {} THEN 1
 Hi(vec) == IF NonBlank(vec) = {} THEN 0
            ELSE CHOOSE i \in NonBlank(vec) : \A j \in NonBlank(vec) : j <= i
 
-RECURSIVE Bisect(_, _, _, _)     \* number of cells in lo..hi that are <= v
-Bisect(v, vec, lo, hi) ==        \* returns the last such position (lo-1: none)
+\* the last position in lo..hi whose cell is <= v if the cells ascend
+\* (lo - 1 if there is none); ceil(log2) probes
+RECURSIVE Bisect(_, _, _, _)
+Bisect(v, vec, lo, hi) ==
   IF lo > hi THEN hi
   ELSE LET mid == (lo + hi) \div 2
        IN  IF Leq(vec[mid], v) THEN Bisect(v, vec, mid + 1, hi)
@@ -211,7 +215,7 @@ BinarySearch(v, vec) ==
 (* Tables and INDEX / VLOOKUP / HLOOKUP / LOOKUP.  A table is a tuple of   *)
 (* rows.  Results are SETS of cell values; {<<"?">>} means unconstrained.  *)
 
-Anything      == {<<"?">>}
+Anything == {<<"?">>}
 RangeErr == {Err("#REF!"), Err("#VALUE!")}
 
 Rows(T) == Len(T)
@@ -306,7 +310,8 @@ AppendValue(c) ==
          ELSE IF IsBlank(l) THEN UNCHANGED <<asc, desc>>   \* first value
          ELSE /\ asc' = (asc /\ Leq(l, c))
               /\ desc' = (desc /\ Leq(c, l))
-  /\ M.srt => (asc' \/ desc')       \* sorted-only modes drop the others
+  /\ IF M.srt THEN (IF asc' THEN TRUE ELSE desc')   \* sorted-only modes
+     ELSE TRUE                                      \* drop the others
   /\ UNCHANGED mode
 
 TrailBlank ==
@@ -411,7 +416,7 @@ Sandwich ==
   \A v \in LookSet :
     LET b == Reverse(a)
         R == MA(v, 1)
-        S == MatchAllowed(v, b, -1)
+        S == MatchRel(v, b, -1, asc)     \* b descends iff a ascends
         Special == {{FREE}, {SELF}}
     IN  /\ (R \in Special) = (S \in Special)
         /\ R \notin Special =>
